@@ -350,7 +350,7 @@ pub struct SimIoError {
 
 impl std::fmt::Display for SimIoError {
     fn fmt(&self, f: &mut std::fmt::Formatter) -> std::fmt::Result {
-        write!(f, "simulated I/O error {} on read #{}", self.kind, self.seq)
+        write!(f, "simulated I/O error {} (not an io::Error)", self.kind)
     }
 }
 
